@@ -35,7 +35,7 @@ def impl_runner(cases):
     lines = [c["line"] for c in cases]
     try:
         try:
-            r = subprocess.run(["strace", "-f", "-qq", "-e", "trace=openat,open", "-o", log, C.CORE_EXE], input="\n".join(lines) + "\n",
+            r = subprocess.run(["strace", "-f", "-qq", "-e", "trace=openat,open,openat2", "-o", log, C.CORE_EXE], input="\n".join(lines) + "\n",
                                capture_output=True, text=True, timeout=1800)
         except (OSError, subprocess.TimeoutExpired):
             # no strace / ptrace not permitted: no observations, outcomes are still compared
@@ -78,6 +78,14 @@ def impl_runner(cases):
             os.unlink(log)
         except OSError:
             pass
+
+
+def extra_coverage(cases, impl):
+    n = sum(1 for c in cases if c.get("observed") is not None)
+    if n == 0:
+        C.log("C18: NOTE — no file opens were observed (strace unavailable or ptrace denied): the observed-opens tie did not run; "
+              "outcomes and canary bytes were still compared")
+    return {"cases_with_observed_file_opens": n}
 
 
 def tie_check(case, impl, model):
